@@ -132,9 +132,269 @@ def deficient_bonds(par, dims_list, psi0, bond_dims):
     return bad
 
 
+# ---- runtime guard on the durations of the local updates ---------------------------------------------------------------------
+class DurationGuard(Exception):
+    pass
+
+
+class duration_guard:
+    """While active, a local update of the TDVP classes (their calls of time_evolve) over a time that exceeds TWICE the
+    requested time step is aborted with DurationGuard (reported by the oracle as a step that raised, with the duration):
+    every local update of the one-site / two-site schemes lasts dt/2 or dt.  It is a cost guard, not a judgement: a step that
+    integrates over a wrong but comparable time runs to its end and is judged by the duration / conservation / exactness
+    oracles; a duration that is off by orders of magnitude (||H|| |t| ~ 1e7 with the Hamiltonian in large units) would keep the
+    action-of-the-exponential kernels busy for hours."""
+
+    def __init__(self, dt):
+        self.dt = abs(float(dt))
+        self._undo = []
+
+    def __enter__(self):
+        import importlib
+        lim = 2.0 * self.dt * (1 + 1e-9)
+        dt = self.dt
+        for name in ("onesitetdvp", "twositetdvp"):
+            mod = importlib.import_module("pytreenet.time_evolution.tdvp_algorithms." + name)
+            orig = getattr(mod, "time_evolve", None)
+            if orig is None:
+                continue
+
+            def guarded(psi, hamiltonian, time_difference, *a, _orig=orig, **k):
+                if not abs(time_difference) <= lim:
+                    raise DurationGuard(f"a local update over the time {time_difference!r} was requested inside a time step of size "
+                                        f"dt = {dt!r} (every local update of the scheme lasts dt/2 or dt); aborted by the harness")
+                return _orig(psi, hamiltonian, time_difference, *a, **k)
+            setattr(mod, "time_evolve", guarded)
+            self._undo.append((mod, orig))
+        return self
+
+    def __exit__(self, *a):
+        for mod, orig in self._undo:
+            setattr(mod, "time_evolve", orig)
+        self._undo = []
+        return False
+
+
+# ---- INITIAL STATES PRODUCED BY OTHER PUBLIC OPERATIONS (round 7) ---------------------------------------------------------------
+QUERIES = ["path_from_to", "find_path_to_root", "distance_to_node", "linearise", "get_leaves", "nearest_neighbours",
+           "find_subtree_of_node", "is_child_of"]
+
+
+def _queries(state, rng, count, log):
+    """read-only questions about the tree (they must not change anything observable)"""
+    ids = list(state.nodes)
+    for _ in range(count):
+        q = rng.choice(QUERIES[:3] if rng.random() < 0.6 else QUERIES)
+        a, b = rng.choice(ids), rng.choice(ids)
+        try:
+            if q in ("path_from_to", "is_child_of"):
+                getattr(state, q)(a, b)
+                log.append([q, a, b])
+            elif q in ("linearise", "get_leaves", "nearest_neighbours"):
+                getattr(state, q)()
+                log.append([q])
+            else:
+                getattr(state, q)(a)
+                log.append([q, a])
+        except Exception as e:  # noqa  (a query that raises is recorded; the derived state is used all the same)
+            log.append([q, a, b, f"raised {type(e).__name__}: {e}"])
+
+
+def derive_state(ttns, prov, seed):
+    """The SAME state (same tensors, same tree, same children orders) obtained by another sequence of public operations than
+    util.build_ttns' root-first construction.  prov = {"grow": k, "queries": q, "copy": None | "deepcopy" | "pickle"}:
+      * grow = k > 0 (trees whose top k nodes have a single child each): the subtree below is built first (its root carrying an
+        extra open leg), read-only queries are made on it (paths, distances, ...), then the top nodes are attached one after the
+        other with add_parent_to_root, with more queries in between; the root comes LAST in the node dictionary;
+      * queries on the finished state; then optionally a deep copy / a pickle round trip of it.
+    Returns (state, log).  The caller checks that the derived state represents the same vector."""
+    import pickle
+    rng = random.Random(seed)
+    log = []
+    T = copy.deepcopy(ttns)
+    k = int(prov.get("grow", 0))
+    nq = int(prov.get("queries", 0))
+    chain = [T.root_id]
+    while len(chain) <= k and len(T.nodes[chain[-1]].children) == 1:
+        chain.append(T.nodes[chain[-1]].children[0])
+    k = min(k, len(chain) - 1)
+    if k > 0:
+        new = type(T)()
+        b = chain[k]
+        new.add_root(util.Node(identifier=b), np.moveaxis(np.array(T.tensors[b]), 0, -1).copy())
+        log.append(["add_root", b])
+        todo = [b]
+        while todo:
+            x = todo.pop(0)
+            for c in T.nodes[x].children:
+                new.add_child_to_parent(util.Node(identifier=c), np.array(T.tensors[c]).copy(), 0, x, new.nodes[x].nneighbours())
+                todo.append(c)
+        _queries(new, rng, nq, log)
+        for i in range(k - 1, -1, -1):
+            a = chain[i]
+            ta = np.array(T.tensors[a])
+            if i > 0:
+                ta = np.moveaxis(ta, 0, -1)          # (child, open, leg for the parent that comes next)
+            root_leg = new.tensors[new.root_id].ndim - 1
+            ta = ta.copy()
+            new.add_parent_to_root(root_leg, util.Node(tensor=ta, identifier=a), ta, 0)      # (the node must be linked to its tensor here)
+            log.append(["add_parent_to_root", a])
+            if i > 0 or prov.get("queries_after_growth"):
+                _queries(new, rng, max(1, nq // 2), log)
+        T = new
+    else:
+        _queries(T, rng, nq, log)
+    if prov.get("copy") == "deepcopy":
+        T = copy.deepcopy(T)
+        log.append(["deepcopy"])
+    elif prov.get("copy") == "pickle":
+        T = pickle.loads(pickle.dumps(T))
+        log.append(["pickle round trip"])
+    return T, log
+
+
+def apply_provenance(case, sysd):
+    """replaces sysd['ttns'] by the derived state of case['prov'] (checked to represent the same vector); returns the log"""
+    before = util.dense_vec(copy.deepcopy(sysd["ttns"]), sysd["ids"])
+    st, log = derive_state(sysd["ttns"], case["prov"], case["seed"] + 29)
+    after = util.dense_vec(copy.deepcopy(st), sysd["ids"])
+    if (util.structure(st) != util.structure(sysd["ttns"])
+            or float(np.max(np.abs(after - before))) > 1e-12 * max(1.0, float(np.max(np.abs(before))))):
+        raise S._Skip("derived state is not the state it was derived from (harness or C02 matter)")
+    if sysd.get("ref") is sysd["ttns"]:
+        sysd["ref"] = st
+    sysd["ttns"] = st
+    return log
+
+
+def top_chain_length(par):
+    """number of consecutive single-child nodes starting at the root (how many nodes add_parent_to_root can contribute)"""
+    ch = util.children_of(par)
+    k, x = 0, 0
+    while len(ch[x]) == 1:
+        k += 1
+        x = ch[x][0]
+    return k
+
+
+def gen_provenance_cases(rng, count, kinds, fields):
+    """trees with a single-child root (chains rooted at an end, single-child roots over branching nodes) grown upwards by
+    1..k add_parent_to_root calls after path queries, and arbitrary trees after queries / deep copy / pickle round trip"""
+    grow_pool = [p for p in S.SPECIAL_TREES + S.DEEP_TREES if top_chain_length(p) >= 1 and 3 <= len(p) <= 7]
+    cases = []
+    for j in range(count):
+        if j % 4 != 3:
+            par = rng.choice(grow_pool) if j % 2 == 0 else None
+            while par is None:
+                cand = S.random_tree(rng, rng.choice([3, 4, 5, 6]))
+                if top_chain_length(cand) >= 1 and len(cand) - top_chain_length(cand) >= 1:
+                    par = cand
+            kmax = min(top_chain_length(par), len(par) - 1)
+            prov = {"grow": rng.randint(1, kmax), "queries": rng.randint(1, 4), "copy": rng.choice([None, None, "deepcopy", "pickle"]),
+                    "queries_after_growth": j % 8 == 4}
+        else:
+            par = S.random_tree(rng, rng.choice([2, 3, 4, 5, 6]))
+            prov = {"grow": 0, "queries": rng.randint(1, 4), "copy": rng.choice(["deepcopy", "pickle"])}
+        c = {"par": par, "kind": kinds[j % len(kinds)], "seed": rng.randrange(10 ** 9), "herm": True}
+        c.update(fields(rng, j, par))
+        c["prov"] = prov
+        cases.append(c)
+    return cases
+
+
+# ---- EARLIER RUNS IN THE SAME PROCESS (round 7: configuration objects changed between calls) -------------------------------
+PRELUDE_ROUTES = ["cfg", "algo", "class-cfg", "class-default"]
+
+
+def run_prelude(case, sysd):
+    """An EARLIER, unrelated run in the same process, made before the judged run of the case: another TDVP object with ITS
+    OWN configuration object, which the caller changes IN PLACE (another solver for a quick exploratory run, recording
+    switches) - before the construction (`cfg`, `class-cfg`) or on the finished object (`algo`, `class-default`).  Routes:
+    the documented builder tdvp(state, H, dt, T, ops, TDVPConfig(order, sites)) with its default time-evolution configuration
+    (`cfg`: cfg.time_evo_config edited; `algo`: algo.config edited after construction), the class with an explicit
+    configuration object (`class-cfg`) or with no configuration argument at all (`class-default`: algo.config edited).
+    The earlier run uses the caller's state / TTNO objects (or a copy of the state) and is NOT judged (an ODE solver is the
+    caller's choice there); what IS judged is the run that follows, made with a FRESH configuration: nothing of the earlier
+    object may leak into it.  Returns a short JSON-able record."""
+    import importlib
+    from pytreenet.time_evolution.tdvp_algorithms import FirstOrderOneSiteTDVP, SecondOrderOneSiteTDVP, SecondOrderTwoSiteTDVP
+    from pytreenet.time_evolution.tdvp_algorithms.tdvp_algorithm import TDVPConfig as AlgoConfig
+    pre = case["prelude"]
+    mode = mode_of(pre["mode"])
+    state = sysd["ttns"] if pre.get("same_state") else copy.deepcopy(sysd["ttns"])
+    dt = sysd["dt"]
+    order, sites = pre.get("order", 2), pre.get("sites", 1)
+    rec = {"route": pre["route"]}
+
+    def edit(cfg):
+        cfg.time_evo_mode = mode
+        if pre.get("record_bond_dim"):
+            cfg.record_bond_dim = True
+    try:
+        if pre["route"] in ("cfg", "algo"):
+            tb = importlib.import_module("pytreenet.time_evolution.tdvp")
+            kw = {"svd_params": util.no_trunc()} if (sites == 2 and pre.get("svd", True)) else {}
+            cfg = tb.TDVPConfig(order=order, sites=sites, **kw)
+            if pre["route"] == "cfg":
+                edit(cfg.time_evo_config)
+            algo = tb.tdvp(state, sysd["ttno"], dt, dt * 2, [], cfg)
+            if pre["route"] == "algo":
+                edit(algo.config)
+        else:
+            cls = {(1, 1): FirstOrderOneSiteTDVP, (2, 1): SecondOrderOneSiteTDVP, (2, 2): SecondOrderTwoSiteTDVP}[(order, sites)]
+            args = [state, sysd["ttno"], dt, dt * 2, []] + ([util.no_trunc()] if sites == 2 else [])
+            if pre["route"] == "class-cfg":
+                cfg = AlgoConfig()
+                edit(cfg)
+                algo = cls(*args, cfg)
+            else:
+                algo = cls(*args)
+                edit(algo.config)
+        for _ in range(pre.get("steps", 1)):
+            algo.run_one_time_step()
+        rec["mode_used"] = str(algo.config.time_evo_mode)
+    except Exception as e:  # noqa   (not judged: recorded for the evidence / replays)
+        rec["exception"] = f"{type(e).__name__}: {e}"
+    return rec
+
+
+def gen_prelude_cases(rng, count, kinds, fields):
+    """judged runs through the builder with a FRESH default configuration (and, in turn, the class with an explicit
+    configuration) that follow an earlier run whose configuration object was changed in place; `fields(rng, j)` supplies
+    the property-specific fields of the judged run (saturated two-node systems / small trees)"""
+    cases = []
+    for j in range(count):
+        c = {"kind": kinds[j % len(kinds)], "seed": rng.randrange(10 ** 9), "herm": True}
+        c.update(fields(rng, j))
+        c["builder"] = j % 4 != 3                      # three of four judged runs use a fresh default TDVPConfig()
+        if c["builder"]:
+            c["mode"] = "default"
+        c["prelude"] = {"route": PRELUDE_ROUTES[(j // len(kinds)) % len(PRELUDE_ROUTES)], "mode": rng.choice(["RK23", "RK45", "RK23", "BDF"]),
+                        "order": rng.choice([1, 2]), "sites": 1 if j % 3 else 2, "steps": rng.choice([1, 2]),
+                        "same_state": j % 2 == 0, "record_bond_dim": j % 5 == 0}
+        if c["prelude"]["sites"] == 2:
+            c["prelude"]["order"] = 2
+        cases.append(c)
+    return cases
+
+
 def _run_case(case):
     try:
         sysd = S.build_system(case)
+        prov = apply_provenance(case, sysd) if case.get("prov") else None      # initial state produced by other public operations
+    except S._Skip as s:
+        return {"skip": str(s)}
+    except Exception as e:  # noqa
+        return {"exception": f"{type(e).__name__}: {e}", "tb": traceback.format_exc()[-1500:], "construct": True}
+    with duration_guard(sysd["dt"]):
+        ob = _run_built(case, sysd)
+    if prov is not None and isinstance(ob, dict):
+        ob["prov"] = prov
+    return ob
+
+
+def _run_built(case, sysd):
+    try:
         kind = case["kind"]
         mode = mode_of(case.get("mode", "expm"))
         sub = case["sub"]
@@ -142,8 +402,12 @@ def _run_case(case):
         init_shapes = {i: [dict(a), list(b)] for i, (a, b) in shapes_by_neighbour(copy.deepcopy(sysd["ttns"])).items()}
         psi0 = util.dense_vec(copy.deepcopy(sysd["ttns"]), sysd["ids"])
         nsteps = case.get("nsteps", 1)
+        # (after psi0 was taken: an earlier run that changed the caller's state shows up as a changed initial state)
+        pre = run_prelude(case, sysd) if case.get("prelude") else None      # an earlier run in this process (not judged)
         ob, algo = S.record_run(kind, sysd, nsteps, check_heff=False, mode=mode, after_step=measure, **S.hist_kwargs(case))
         ob["initial_shapes"] = init_shapes
+        if pre is not None:
+            ob["prelude"] = pre
         # --- C06W hook: private run of the same class for the store-level tie (structure after constructor / steps) ---
         if c06w.sampled(case, 0):
             ob["w"] = c06w.real_side(case, sysd, kind, mode, S.make_algo, S.rtree_json)
@@ -219,7 +483,14 @@ class C06(Prop):
             "2^hexp, hexp in [-44, 24] in four bands (energies 1e-13 .. 1e7) with the time step divided by the same power of two (time steps "
             "1e13 .. 1e-7, H dt as for the unscaled system), every fifth state rescaled by 2^-30 .. 2^16: every third such case a saturated "
             "two-node system against exp(-iH k dt) (EXPM and default mode), the others run / reverse on trees with 2..6 nodes; deviations of "
-            "states are judged relative to max|psi0|, energies relative to max|H|. non-trivial = >= 2 nodes; distinct by content")
+            "states are judged relative to max|psi0|, energies relative to max|H|. Earlier runs in the same process: the judged run (builder "
+            "with a fresh default TDVPConfig(), or the class with an explicit configuration; saturated two-node systems and trees with 2..5 nodes) "
+            "follows another TDVP object (builder / class, order 1..2, one- or two-site) whose own configuration object was changed in place "
+            "(time_evo_mode RK23 / RK45 / BDF, record_bond_dim) before or after its construction, on the caller's state object or a copy. "
+            "Initial states produced by other public operations: the tree grown upwards (subtree first, then 1..k add_parent_to_root calls, root last "
+            "in the node dictionary) with read-only queries (path_from_to, find_path_to_root, distance_to_node, ...) before / between the growth "
+            "steps, or queried and deep-copied / pickled. A local update over more than 2 dt is aborted and reported (cost guard). "
+            "non-trivial = >= 2 nodes; distinct by content")
     clauses = [
         ("F", "both traces are defined on every tree with unique ids (second order: >= 2 nodes) — the step raises no IndexError-type failure "
               "(C06_first_order_runs, C06_second_order_runs); the structural assertions of the first-order class (first node is a leaf, last node has "
@@ -335,6 +606,29 @@ class C06(Prop):
                 c["sub"] = "run"
         sat = [c for c in sc if c["sub"] == "saturated"]
         cases = sat + cases + [c for c in sc if c["sub"] != "saturated"]      # (exactness clauses first, see above)
+        # EARLIER RUNS IN THE SAME PROCESS ("configurations", "histories"): the judged run is built with a FRESH configuration
+        # (the builder's default TDVPConfig(), or the class with an explicit one) after another TDVP object was run whose own
+        # configuration object had been changed in place (ODE solver, recording switch): see run_prelude.  Half of them saturated
+        # two-node systems (exactness), the others conservation runs on trees with 2..5 nodes.  They go FIRST: the workers of
+        # the pool are reused, so a library that lets the earlier object leak into later ones is reported on the case that
+        # contains the whole history (its replay is self-contained)
+
+        def pfields(rng, j):
+            if j % 2 == 0:
+                d = rng.choice([2, 3])
+                return {"par": [None, 0], "sub": "saturated", "phys": [d, d], "bond": {1: d}, "mode": "expm",
+                        "nsteps": rng.choice([1, 2]), "nterms": rng.choice([2, 3, 4]), "coeffs": j % 4 == 0}
+            par = rng.choice([p for p in S.SPECIAL_TREES if len(p) <= 5])
+            return {"par": par, "sub": "run", "coeffs": j % 4 == 1, "ttno_shuffle": j % 3 == 0, "mode": "expm",
+                    "nsteps": rng.choice([1, 2]), "nterms": rng.choice([1, 2, 3])}
+        # INITIAL STATES PRODUCED BY OTHER PUBLIC OPERATIONS ("all trees ... all root positions, all initial states"): the tree grown
+        # upwards by add_parent_to_root after read-only queries, or queried and deep-copied / pickled (derive_state)
+
+        def prfields(rng, j, par):
+            return {"sub": "reverse" if j % 4 == 1 else "run", "coeffs": j % 4 == 0, "ttno_shuffle": j % 2 == 0,
+                    "mode": "default" if j % 5 == 0 else "expm", "nterms": rng.choice([1, 2, 3]), "nsteps": rng.choice([1, 2]) if len(par) <= 5 else 1}
+        cases += gen_provenance_cases(rng, ctx.scale(8, 120) * budget_scale, ["tdvp1", "tdvp2"], prfields)
+        cases = gen_prelude_cases(rng, ctx.scale(8, 96) * budget_scale, ["tdvp1", "tdvp2"], pfields) + cases
         return cases
 
     def nontrivial(self, case):
@@ -351,6 +645,12 @@ class C06(Prop):
             c["history=" + x.get("hist", "steps")] += 1
             if x.get("tratio") is not None and x["tratio"] != int(x["tratio"]):
                 c["final-time-not-multiple-of-dt"] += 1
+            if x.get("prov"):
+                c["initial-state:grown-by-%d-add_parent_to_root" % x["prov"]["grow"] if x["prov"].get("grow") else "initial-state:queried"] += 1
+                if x["prov"].get("copy"):
+                    c["initial-state:" + x["prov"]["copy"]] += 1
+            if x.get("prelude"):
+                c["after-earlier-run:" + x["prelude"]["route"] + ("/fresh-default-config" if x.get("builder") else "/explicit-config")] += 1
             S.scale_distribution(c, x)
         return dict(c)
 
